@@ -292,7 +292,9 @@ template <typename T>
 struct Glue<nop::Optional<T>> {
   static void build(nop::Optional<T>& o, const Sx& x) {
     if (x.atom && x.a == "none") { o.clear(); return; }
-    NeedSeq(x, "some"); T e{}; Build(e, x.l.at(1)); o = std::move(e);
+    // through Optional<T>{T&&}: when T is itself an Optional, `o = std::move(e)` would pick the CONVERTING assignment
+    // and an empty inner value would leave the outer one empty
+    NeedSeq(x, "some"); T e{}; Build(e, x.l.at(1)); o = nop::Optional<T>{std::move(e)};
   }
   static void dump(std::string& s, const nop::Optional<T>& v) {
     if (v.empty()) { s += "none"; return; }
@@ -304,7 +306,7 @@ struct Glue<nop::Entry<T, Id, nop::ActiveEntry>> {
   using E = nop::Entry<T, Id, nop::ActiveEntry>;
   static void build(E& o, const Sx& x) {
     if (x.atom && x.a == "none") { o.clear(); return; }
-    NeedSeq(x, "some"); T e{}; Build(e, x.l.at(1)); o = std::move(e);
+    NeedSeq(x, "some"); T e{}; Build(e, x.l.at(1)); o = nop::Optional<T>{std::move(e)};   // as above (an entry holding an Optional)
   }
   static void dump(std::string& s, const E& v) {
     if (v.empty()) { s += "none"; return; }
